@@ -166,6 +166,12 @@ def run_script(nsends, script, waits=None, late=None, cancels=None, rng=None, wa
             elif r == "stale":
                 d.frames([("ACK", 0, 0, frm)])
                 d.tick()
+            elif r.startswith("stale+"):      # an ACK whose ackNum is frm + k, k != 1: it does not cover the outstanding frame
+                d.frames([("ACK", 0, 0, (frm + int(r[6:])) % 8)])
+                d.tick()
+            elif r.startswith("datastale+"):  # the same piggybacked on a DATA frame
+                d.frames([("DATA", d.proto._rx_seq, 0, (frm + int(r[10:])) % 8, b"\x02")])
+                d.tick()
             elif r == "nak":
                 d.frames([("NAK", 0, 0, frm)])
             elif r == "silence":
@@ -336,6 +342,12 @@ class Check(PropertyCheck):
         for r in RACES:
             cases.append({"n": 2, "script": ["silence"] * 4 + [r]})
             cases.append({"n": 1, "script": ["nak"] * 4 + [r]})
+        # acknowledgement numbers that do not cover the outstanding frame, every distance, from every frame number
+        for warm in range(0, 8):
+            for k in (0, 2, 3, 4, 5, 6, 7):
+                cases.append({"n": 1, "script": [f"stale+{k}", "ack"], "warm": warm})
+                if tier != "quick" or (warm + k) % 3 == 0:
+                    cases.append({"n": 2, "script": [f"datastale+{k}", f"stale+{(k + 3) % 8 or 2}", "ack"], "warm": warm})
         # every reset code an ERROR frame can carry, on the first and on a later attempt, with a send queued behind
         for code in (range(256) if tier != "quick" else [0, 1, 2, 3, 6, 9, 0x0B, 0x51, 0x52, 0x53, 0x80, 0xFF]):
             cases.append({"n": 2, "script": [f"error:{code}"]})
